@@ -152,6 +152,9 @@ type World struct {
 	// NextProcUnsuffixed: processes started while this is set use a metastore without region suffix
 	// (a mixed deployment: records written before suffixing was switched on).
 	NextProcUnsuffixed bool
+	// NextProcSuffix: processes started while this is set run in that region (their metastore reports
+	// that suffix) - another region of a global table
+	NextProcSuffix string
 
 	Store *SimStore
 	// Mem, when set, puts the repository's real MemoryMetastore (which hands out and keeps the caller's
@@ -244,6 +247,9 @@ func (w *World) NewProc(cfg PolicyCfg) *Proc {
 	var ms appencryption.Metastore = &msView{w: w, proc: p.ID}
 	if w.Suffix != "" && !w.NextProcUnsuffixed {
 		ms = &msViewSuffixed{msView: msView{w: w, proc: p.ID}, suffix: w.Suffix}
+		if w.NextProcSuffix != "" {
+			ms = &msViewSuffixed{msView: msView{w: w, proc: p.ID}, suffix: w.NextProcSuffix}
+		}
 	}
 	conf := &appencryption.Config{Service: w.Service, Product: w.Product, Policy: cfg.Build()}
 	var sf securememory.SecretFactory = &ledgerFactory{w: w, proc: p.ID}
